@@ -236,7 +236,7 @@ R_PATHS = ["/a/f", "f", "/d ir/x", "-o", "/", "rel/p.bin", "/ä"]
 R_OPTS = ["ProxyJump=x", "A B", "BatchMode=yes", "StrictHostKeyChecking=no", "-o", "", "ControlMaster=auto",
           "ProxyCommand=ssh -W %h:%p gw", "BatchMode=no"]
 R_KEYS = ["/k/id", "rel key", "~/.ssh/id_rsa", "-i", ""]
-R_NORM = ["/k/id", "/home/u/.ssh/id_ed", "k", "/sp ace/id"]
+R_NORM = ["/k/id", "/home/u/.ssh/id_ed", "k", "/sp ace/id", "~/.ssh/id_board", "~"]
 R_PW = ["hunter2", "-p", "", "p w", "ssh"]
 
 
